@@ -60,6 +60,16 @@ fn domain(tier: Tier) -> Vec<Shape> {
                 s += step;
             }
         }
+        // start angles outside [0, 360)
+        for d in [1u32, 5, 8, 13] {
+            for s in [-90, -45, -1, 360, 405, 725, -725] {
+                let mut sw = -390;
+                while sw <= 390 {
+                    v.push(Shape::Sector { x, y, d, start: s * 4, sweep: sw * 4 });
+                    sw += 30;
+                }
+            }
+        }
         if t {
             for d in 0..=12 {
                 for s in (0..360).step_by(3) {
@@ -170,6 +180,12 @@ fn run_part(run: &mut Run) {
         "shapes",
         "Rectangle/Circle/Ellipse/RoundedRectangle(equal+unequal radii)/Sector/Triangle(non-zero area) on listed size, radius, angle and vertex grids at two positions",
         || domain(tier),
+        check,
+    );
+    run.sweep_vec(
+        "display-scale",
+        "the area primitives of the display-scale catalogue (sizes 200..=320 px and one 1024 px shape at each of three positions far right/below, far left/above and across the origin)",
+        || display_scale_catalogue().into_iter().filter(|s| matches!(s, Shape::Rect { .. } | Shape::Circle { .. } | Shape::Ellipse { .. } | Shape::RRect { .. } | Shape::Sector { .. } | Shape::Tri { .. })).filter(|s| !matches!(s, Shape::Tri { a, b, c } if (b.0 - a.0) as i64 * (c.1 - a.1) as i64 == (c.0 - a.0) as i64 * (b.1 - a.1) as i64)).collect(),
         check,
     );
 }
